@@ -17,7 +17,7 @@ META = {
     ),
     "anchors": ["hamiltonians.ham_fermi_hubbard_from_edges", "hamiltonians.ham_fermi_hubbard_spinless_from_edges", "hamiltonians.make_edge_factory", "hamiltonians.make_node_factory", "networks.parse_edges_to_site_info"],
     "floors": {
-        "quick": {"evaluations": 1500, "distinct_nontrivial": 300, "tables": {"builder/hubbard": 500, "builder/spinless": 400, "builder/site_info": 400, "coeff/dict-reversed-orientation": 100, "coeff/callable": 100, "graphs/exhaustive<=4": 46}},
+        "quick": {"evaluations": 1500, "distinct_nontrivial": 300, "tables": {"builder/hubbard": 500, "builder/spinless": 400, "builder/site_info": 400, "coeff/dict-reversed-orientation": 100, "coeff/callable": 100, "coeff/dict-reused-after-update": 50, "graphs/exhaustive<=4": 46}},
         "thorough": {"evaluations": 20000, "distinct_nontrivial": 3000},
     },
     "exhaustive": {"quick": False, "thorough": False},
@@ -113,6 +113,29 @@ def lattice_case(ctx, rng, n, edges0, exhaustive_tag=None):
         ctx.count("coeff", "dict-reversed-orientation")
     if exhaustive_tag:
         ctx.count("graphs", exhaustive_tag)
+    # history: sometimes the SAME coefficient dict objects were used for an earlier build with
+    # other values and then updated in place through the user's own keys
+    warm = rng.random() < 0.35 and any(isinstance(a_, dict) for a_ in (t_arg, mu_arg))
+    if warm:
+        ctx.count("coeff", "dict-reused-after-update")
+        real_t = dict(t_arg) if isinstance(t_arg, dict) else None
+        real_mu = dict(mu_arg) if isinstance(mu_arg, dict) else None
+        if real_t is not None:
+            for k_ in t_arg:
+                t_arg[k_] = t_arg[k_] + 7.0
+        if real_mu is not None:
+            for k_ in mu_arg:
+                mu_arg[k_] = mu_arg[k_] + 3.0
+        if model == "hubbard":
+            ctx.call(sr.ham_fermi_hubbard_from_edges, sym, given, t=t_arg, U=1.0, mu=mu_arg)
+        else:
+            ctx.call(sr.ham_fermi_hubbard_spinless_from_edges, sym, given, t=t_arg, V=0.5, mu=mu_arg)
+        if real_t is not None:
+            for k_, v_ in real_t.items():
+                t_arg[k_] = v_
+        if real_mu is not None:
+            for k_, v_ in real_mu.items():
+                mu_arg[k_] = v_
     if model == "hubbard":
         U_arg, U_true = coeff_node(rng, sites, forms["U"])
         wit["U"] = repr(U_true)
